@@ -394,39 +394,45 @@ Section Accept.
 End Accept.
 
 (* ------------------------------------------------------------------------------------------ *)
-(* 4. Packed forms (for the harness: monitors and lock-step models work on N-coded states).     *)
-From LunaLib Require Import PackN.
+(* 4. Packed forms (for the harness: monitors and lock-step models work on N-coded states).
+   Fields are bit fields (shift / mask only: these run inside vm_compute for every explored step).  *)
 
-Fixpoint packr (B : N) (l : list N) (rest : N) : N :=
-  match l with [] => rest | x :: t => pk B x (packr B t rest) end.
-Fixpoint unpackr (B : N) (k : nat) (n : N) : list N * N :=
+(* field x (< 2^w) in front of rest *)
+Definition pkb (w x rest : N) : N := N.lor x (N.shiftl rest w).
+Definition lo (w v : N) : N := N.land v (N.ones w).
+Definition hi (w v : N) : N := N.shiftr v w.
+
+Fixpoint packr (w : N) (l : list N) (rest : N) : N :=
+  match l with [] => rest | x :: t => pkb w x (packr w t rest) end.
+Fixpoint unpackr (w : N) (k : nat) (n : N) : list N * N :=
   match k with
   | O => ([], n)
-  | S k' => let (l, r) := unpackr B k' (n / B) in (n mod B :: l, r)
+  | S k' => let (l, r) := unpackr w k' (hi w n) in (lo w n :: l, r)
   end.
-(* a list of digits below B, with its length in front (at most 2^16 - 1 elements), followed by rest *)
-Definition enc_list (B : N) (l : list N) (rest : N) : N := pk (2 ^ 16) (N.of_nat (length l)) (packr B l rest).
-Definition dec_list (B : N) (n : N) : list N * N := unpackr B (N.to_nat (n mod 2 ^ 16)) (n / 2 ^ 16).
+(* a list of w-bit fields with its length (< 2^16) in front, followed by rest *)
+Definition enc_list (w : N) (l : list N) (rest : N) : N := pkb 16 (N.of_nat (length l)) (packr w l rest).
+Definition dec_list (w : N) (n : N) : list N * N := unpackr w (N.to_nat (lo 16 n)) (hi 16 n).
 
-Definition item_code (it : item) : N := match it with E => 0 | W w n => (n + 1) + 8 * w end.
-Definition item_of (c : N) : item := if c =? 0 then E else W (c / 8) (c mod 8 - 1).
-Definition IB : N := 2 ^ 35.
+(* items: 3 bits (0 = E, n + 1 for a word with n bytes) + 32 bits of data *)
+Definition item_code (it : item) : N := match it with E => 0 | W w n => pkb 3 (n + 1) w end.
+Definition item_of (c : N) : item := if lo 3 c =? 0 then E else W (hi 3 c) (lo 3 c - 1).
+Definition IW : N := 35.
 
 Definition ref_enc (r : ref_state) : N :=
-  pk 32 (r_exp r) (pk 2 (b2n (r_out r)) (pk 8 (match r_req r with None => 0 | Some k => k + 1 end)
-  (pk 2 (b2n (r_nrdy r)) (pk 2 (b2n (r_gen r))
-  (pk 4 (match r_fly r with None => 0 | Some (f, _) => 1 + 2 * b2n f end)
-  (enc_list IB (map item_code (match r_fly r with None => [] | Some (_, l) => l end))
-  (enc_list IB (map item_code (r_pend r)) 0))))))).
+  pkb 5 (r_exp r) (pkb 1 (b2n (r_out r)) (pkb 3 (match r_req r with None => 0 | Some k => k + 1 end)
+  (pkb 1 (b2n (r_nrdy r)) (pkb 1 (b2n (r_gen r))
+  (pkb 2 (match r_fly r with None => 0 | Some (f, _) => 1 + 2 * b2n f end)
+  (enc_list IW (map item_code (match r_fly r with None => [] | Some (_, l) => l end))
+  (enc_list IW (map item_code (r_pend r)) 0))))))).
 
 Definition ref_dec (x : N) : ref_state :=
-  let x1 := x / 32 in let x2 := x1 / 2 in let x3 := x2 / 8 in let x4 := x3 / 2 in let x5 := x4 / 2 in
-  let x6 := x5 / 4 in
-  let (fl, x7) := dec_list IB x6 in
-  let (pe, _) := dec_list IB x7 in
-  {| r_pend := map item_of pe; r_exp := x mod 32; r_out := N.odd x1;
-     r_req := (let c := x2 mod 8 in if c =? 0 then None else Some (c - 1));
-     r_fly := (let c := x5 mod 4 in if c =? 0 then None else Some (N.odd (c / 2), map item_of fl));
+  let x1 := hi 5 x in let x2 := hi 1 x1 in let x3 := hi 3 x2 in let x4 := hi 1 x3 in let x5 := hi 1 x4 in
+  let x6 := hi 2 x5 in
+  let (fl, x7) := dec_list IW x6 in
+  let (pe, _) := dec_list IW x7 in
+  {| r_pend := map item_of pe; r_exp := lo 5 x; r_out := N.odd x1;
+     r_req := (let c := lo 3 x2 in if c =? 0 then None else Some (c - 1));
+     r_fly := (let c := lo 2 x5 in if c =? 0 then None else Some (N.testbit c 1, map item_of fl));
      r_nrdy := N.odd x3; r_gen := N.odd x4 |}.
 
 (* the referee as an N-coded monitor over packed input/output words *)
@@ -452,25 +458,24 @@ Definition fsm_code (f : ss_fsm) : N :=
   match f with WAIT_FOR_DATA => 0 | REQUEST_IN_TOKEN => 1 | WAIT_TO_SEND => 2 | SEND_PACKET => 3 | WAIT_FOR_ACK => 4 end.
 Definition fsm_of (c : N) : ss_fsm :=
   match c with 0 => WAIT_FOR_DATA | 1 => REQUEST_IN_TOKEN | 2 => WAIT_TO_SEND | 3 => SEND_PACKET | _ => WAIT_FOR_ACK end.
-Definition WB : N := 2 ^ 32.
 
 Definition ss_enc (st : ss_state) : N :=
-  pk 8 (fsm_code (s_fsm st)) (pk 32 (s_seq st) (pk 2048 (s_pos st) (pk 2 (b2n (s_lpz st)) (pk 2 (b2n (s_erdy st))
-  (pk 16 (s_ov st) (pk 2 (b2n (s_of st)) (pk 2 (b2n (s_ol st)) (pk WB (s_op st)
-  (pk 2048 (b_fill (s_rb st)) (pk 2 (b2n (b_ended (s_rb st)))
-  (pk 2048 (b_fill (s_wb st)) (pk 2 (b2n (b_ended (s_wb st)))
-  (enc_list WB (b_words (s_rb st)) (enc_list WB (b_words (s_wb st)) 0)))))))))))))).
+  pkb 3 (fsm_code (s_fsm st)) (pkb 5 (s_seq st) (pkb 11 (s_pos st) (pkb 1 (b2n (s_lpz st)) (pkb 1 (b2n (s_erdy st))
+  (pkb 4 (s_ov st) (pkb 1 (b2n (s_of st)) (pkb 1 (b2n (s_ol st)) (pkb 32 (s_op st)
+  (pkb 11 (b_fill (s_rb st)) (pkb 1 (b2n (b_ended (s_rb st)))
+  (pkb 11 (b_fill (s_wb st)) (pkb 1 (b2n (b_ended (s_wb st)))
+  (enc_list 32 (b_words (s_rb st)) (enc_list 32 (b_words (s_wb st)) 0)))))))))))))).
 
 Definition ss_dec (x : N) : ss_state :=
-  let x1 := x / 8 in let x2 := x1 / 32 in let x3 := x2 / 2048 in let x4 := x3 / 2 in let x5 := x4 / 2 in
-  let x6 := x5 / 16 in let x7 := x6 / 2 in let x8 := x7 / 2 in let x9 := x8 / WB in let x10 := x9 / 2048 in
-  let x11 := x10 / 2 in let x12 := x11 / 2048 in let x13 := x12 / 2 in
-  let (rw, x14) := dec_list WB x13 in
-  let (ww, _) := dec_list WB x14 in
-  {| s_fsm := fsm_of (x mod 8); s_seq := x1 mod 32; s_pos := x2 mod 2048; s_lpz := N.odd x3; s_erdy := N.odd x4;
-     s_ov := x5 mod 16; s_of := N.odd x6; s_ol := N.odd x7; s_op := x8 mod WB;
-     s_rb := {| b_words := rw; b_fill := x9 mod 2048; b_ended := N.odd x10 |};
-     s_wb := {| b_words := ww; b_fill := x11 mod 2048; b_ended := N.odd x12 |} |}.
+  let x1 := hi 3 x in let x2 := hi 5 x1 in let x3 := hi 11 x2 in let x4 := hi 1 x3 in let x5 := hi 1 x4 in
+  let x6 := hi 4 x5 in let x7 := hi 1 x6 in let x8 := hi 1 x7 in let x9 := hi 32 x8 in let x10 := hi 11 x9 in
+  let x11 := hi 1 x10 in let x12 := hi 11 x11 in let x13 := hi 1 x12 in
+  let (rw, x14) := dec_list 32 x13 in
+  let (ww, _) := dec_list 32 x14 in
+  {| s_fsm := fsm_of (lo 3 x); s_seq := lo 5 x1; s_pos := lo 11 x2; s_lpz := N.odd x3; s_erdy := N.odd x4;
+     s_ov := lo 4 x5; s_of := N.odd x6; s_ol := N.odd x7; s_op := lo 32 x8;
+     s_rb := {| b_words := rw; b_fill := lo 11 x9; b_ended := N.odd x10 |};
+     s_wb := {| b_words := ww; b_fill := lo 11 x11; b_ended := N.odd x12 |} |}.
 
 (* ---- input alphabet of the R tie (depends on the model state: only inputs the contract allows in that
    state, and both values of an input only where the module can look at it) ---- *)
@@ -482,22 +487,35 @@ Definition mk_in (valid : N) (last : bool) (payload : N) (txready ack : bool) (h
 Definition PA : N := 287454020.     (* 0x11223344 *)
 Definition PB : N := 2864434397.    (* 0xAABBCCDD *)
 
-(* stream side: (valid, last, payload) *)
-Definition alpha_stream : list (N * bool * N) :=
-  (0, false, 0) ::
-  flat_map (fun p => [(15, false, p); (15, true, p); (1, true, p); (3, true, p); (7, true, p)]) [PA; PB].
+(* stream side: (valid, last, payload).
+   profile 0 ("control"): every valid mask, payload word 0;
+   profile 1 ("data"): full words only, the payload word tells the position it is written to;
+   profile 2: every valid mask and position-telling payload words *)
+Definition alpha_stream (prof : N) (st : ss_state) : list (N * bool * N) :=
+  let p := match prof with 0 => 0 | _ => if b_fill (s_wb st) =? 0 then PA else PB end in
+  match prof with
+  | 1 => [(0, false, 0); (15, false, p); (15, true, p)]
+  | _ => [(0, false, 0); (15, false, p); (15, true, p); (1, true, p); (3, true, p); (7, true, p)]
+  end.
 
 (* host side: (ack, hep, retry, nseq, nump) *)
-Definition alpha_host (ep sb : N) (st : ss_state) : list (bool * N * bool * N * N) :=
+Definition alpha_host (prof ep sb : N) (st : ss_state) : list (bool * N * bool * N * N) :=
   let none := (false, 0, false, 0, 0) in
   let foreign := (true, ep + 1, false, 0, 1) in
   let sq := s_seq st in
   let nx := (sq + 1) mod 2 ^ sb in
-  match s_fsm st with
-  | WAIT_FOR_DATA | WAIT_TO_SEND => [none; foreign; (true, ep, false, sq, 1)]
-  | REQUEST_IN_TOKEN | SEND_PACKET => [none; foreign]
-  | WAIT_FOR_ACK => [none; foreign; (true, ep, false, nx, 0); (true, ep, false, nx, 1);
-                     (true, ep, true, sq, 1); (true, ep, false, (sq + 2) mod 2 ^ sb, 1)]
+  match prof with
+  | 1 => match s_fsm st with
+         | WAIT_FOR_DATA | WAIT_TO_SEND => [none; (true, ep, false, sq, 1)]
+         | REQUEST_IN_TOKEN | SEND_PACKET => [none]
+         | WAIT_FOR_ACK => [none; (true, ep, false, nx, 0); (true, ep, false, nx, 1); (true, ep, true, sq, 1)]
+         end
+  | _ => match s_fsm st with
+         | WAIT_FOR_DATA | WAIT_TO_SEND => [none; foreign; (true, ep, false, sq, 1)]
+         | REQUEST_IN_TOKEN | SEND_PACKET => [none; foreign]
+         | WAIT_FOR_ACK => [none; foreign; (true, ep, false, nx, 0); (true, ep, false, nx, 1);
+                            (true, ep, true, sq, 1); (true, ep, false, (sq + 2) mod 2 ^ sb, 1)]
+         end
   end.
 
 Definition alpha_misc (st : ss_state) : list (bool * bool * bool) :=   (* tx_ready, hs_ready, hs_done *)
@@ -507,8 +525,8 @@ Definition alpha_misc (st : ss_state) : list (bool * bool * bool) :=   (* tx_rea
   | _ => [(true, true, false)]
   end.
 
-Definition ss_alpha (ep sb : N) (st : ss_state) : list N :=
+Definition ss_alpha (prof ep sb : N) (st : ss_state) : list N :=
   flat_map (fun s => match s with (v, l, p) =>
     flat_map (fun h => match h with (a, hep, r, ns, np) =>
       map (fun m => match m with (txr, hr, hd) => mk_in v l p txr a hep r ns np hr hd end) (alpha_misc st)
-    end) (alpha_host ep sb st) end) alpha_stream.
+    end) (alpha_host prof ep sb st) end) (alpha_stream prof st).
